@@ -496,7 +496,7 @@ def run(tier, seed):
     check_direct(st)
     policy_label(st)
     ls = [(a, th) for a in (('CLEAN', 'REFUSED'), ('REFUSED', 'CLEAN'), ('TERR', 'UNRESOLVABLE'), ('UNRESOLVABLE', 'TERR'), ('GEX4096', 'CLOSEEARLY'), ('CLOSEEARLY', 'GEX4096'),
-                                    ('CLEAN', 'REFUSED', 'TERR'), ('BADBLOCK', 'RSA2048', 'REFUSED')) for th in (2, 3)]
+                                    ('CLEAN', 'REFUSED', 'TERR'), ('BADBLOCK', 'RSA2048', 'REFUSED'), ('DEBUGBADBLOCK', 'CLEAN'), ('CLEAN', 'DEBUGEMPTY', 'TERR')) for th in (2, 3)]
     par.pmap(work_label_schedules, ls, stats=st, chunk=1)
     # real resolver and real sockets for the forms that can be exercised on loopback without a name service
     vcases = []
